@@ -101,6 +101,27 @@ for attempt in (1, 2, 3):
     want = ["none_root", "none_leaf"] if attempt == 1 else []
     if sorted(pipe.CALLS) != sorted(want):
         bad("hit", "kept functions returning None, evaluation %d of the unchanged pipeline: executed %s, expected %s" % (attempt, pipe.CALLS, want))
+# a keep that the analysis finds but the evaluation does not execute (guarded by a condition that is false at run time),
+# while the function kept there has changed: the path keeps serving what the latest evaluation that KEPT it returned
+s = fresh(); pipe.SCALE = 2; pipe.COND = True
+res, exc, ev, calls = run(fn=pipe.cond_root)
+if exc is not None or res != "cond-2": bad("commit", "conditional keep, condition true: %r / %r" % (res, exc))
+pipe.COND = False; pipe.SCALE = 9
+res, exc, ev, calls = run(fn=pipe.cond_root)
+if exc is not None or res != "skipped": bad("commit", "conditional keep, condition false: %r / %r" % (res, exc))
+for e_ in ev:
+    if e_[0] == "sync_paths":
+        for p_, k_ in e_[1].items():
+            if not s.has_blob(k_): bad("commit", "an evaluation that did not execute the keep of %s committed the path to a blob that does not exist" % p_)
+try:
+    got = dds.load("/out/cond")
+except BaseException as e:
+    got = "<%s>" % type(e).__name__
+if got != "cond-2": bad("commit", "after an evaluation that did not execute the keep of /out/cond, dds.load(/out/cond) serves %r; the latest evaluation that kept it returned 'cond-2'" % (got,))
+pipe.COND = True
+res, exc, ev, calls = run(fn=pipe.cond_root)
+if exc is not None or res != "cond-9": bad("commit", "conditional keep, condition true again: %r / %r" % (res, exc))
+pipe.SCALE = 2
 # only nested blob missing: root hit
 # ---- dry runs ----------------------------------------------------------------------------------------------------
 for stages in (["analysis"], ["ANALYSIS"], [PS.ANALYSIS], ["analysis", "store_inspect"], ["Analysis", PS.STORE_INSPECT]):
@@ -275,6 +296,18 @@ def none_root():
     CALLS.append("none_root")
     x = dds.keep("/out/none_leaf", none_leaf)
     return None
+
+COND = True
+
+def cond_leaf():
+    CALLS.append("cond_leaf")
+    return "cond-%d" % SCALE
+
+def cond_root():
+    CALLS.append("cond_root")
+    if COND:
+        return dds.keep("/out/cond", cond_leaf)
+    return "skipped"
 
 def other_leaf():
     CALLS.append("other_leaf")
